@@ -20,7 +20,7 @@ RULE = ('all basic index expressions over the alphabet {int, negative int, numpy
 ASSUMPTIONS = ['NumPy applied to each (d,p) coefficient slice is the specification', 'data movement is compared bit-exactly (NaN == NaN)']
 REQUIRED = ['getitem', 'getitem:view', 'setitem:utpm', 'setitem:bcast', 'setitem:leading1', 'setitem:ndarray', 'setitem:scalar', 'setitem:alias', 'writethrough', 'reshape', 'transpose',
             'transpose:view', 'sum', 'tile', 'diag', 'triu', 'tril', 'trace', 'symvec', 'vecsym', 'neg', 'conjugate', 'real', 'imag', 'fft', 'ifft',
-            'zeros', 'ones', 'zeros_like', 'ones_like']
+            'zeros', 'ones', 'zeros_like', 'ones_like', 'protocol']
 
 AX1 = [0, -1, 2, np.int64(1), slice(None), slice(1, None), slice(None, -1), slice(None, None, 2), slice(None, None, -1), slice(3, 0, -2), slice(1, 1), Ellipsis, None]
 
@@ -111,6 +111,7 @@ def cases(tier, seed):
             add('shapeops', D=D, P=P, vals=vk)
             add('reductions', D=D, P=P, vals=vk)
             add('construct', D=D, P=P, vals=vk)
+            add('protocol', D=D, P=P, vals=vk)
     return out
 
 
@@ -145,6 +146,73 @@ def _slicewise(y, x, f):
 def run_case(ctx, case):
     rng = gen.rng_of(case)
     return globals()['_' + case['kind']](ctx, case['params'], rng)
+
+
+def _protocol(ctx, p, rng):
+    """the Python-level protocols an array-like offers - len, iteration, list(), unpacking, builtin sum / max / min, numpy.sum /
+    numpy.transpose / numpy.trace dispatch, copy - act on the element axes like they act on the NumPy array of one coefficient slice"""
+    import copy
+    D, P, vk = p['D'], p['P'], p['vals']
+    for shape in [(3,), (2, 3), (1, 2), (2, 2, 2), (4, 1), (1,)]:
+        data = _vals(rng, (D, P) + shape, vk)
+        x = UTPM(gen.relayout(data, gen.LAYOUTS[int(rng.integers(len(gen.LAYOUTS)))]))
+        plain = data[0, 0]
+        try:
+            ln = len(x); items = list(x); it = [r for r in x]; first, *rest = x
+        except Exception as e:
+            ctx.violation('protocol:iteration:raises', {'shape': shape, 'error': repr(e)[:160]}); return
+        if ln != len(plain) or len(items) != len(plain) or len(it) != len(plain) or len(rest) != len(plain) - 1:
+            ctx.violation('protocol:len-or-number-of-items', {'shape': shape, 'len': ln, 'items': len(items), 'want': len(plain)}); return
+        for i, (a, b) in enumerate(zip(items, it)):
+            for e in (a, b, first if i == 0 else rest[i - 1]):
+                if not isinstance(e, UTPM) or not _eq(e.data, data[(slice(None), slice(None), i)]):
+                    ctx.violation('protocol:item-values', {'shape': shape, 'item': i, 'D': D, 'P': P}); return
+        ctx.ok('protocol', ('iter', shape, D, P, vk))
+        if vk == 'nonfinite':
+            continue
+        # builtin sum: 0 + x[0] + x[1] + ...  (sequential, so compared with the sequential NumPy sum)
+        try:
+            s_ = sum(x)
+        except Exception as e:
+            ctx.violation('protocol:builtin-sum:raises', {'shape': shape, 'error': repr(e)[:160]}); return
+        ref = np.zeros_like(data[:, :, 0])
+        for i in range(shape[0]):
+            ref = ref + data[:, :, i]
+        if not isinstance(s_, UTPM) or s_.data.shape != ref.shape or not np.allclose(s_.data, ref, rtol=1e-14, atol=1e-14 * np.max(np.abs(data))):
+            ctx.violation('protocol:builtin-sum:value', {'shape': shape, 'D': D, 'P': P}); return
+        for nm, f, g in (('numpy.sum', lambda: np.sum(x), lambda sl: np.sum(sl)), ('numpy.transpose', lambda: np.transpose(x), lambda sl: np.transpose(sl)),
+                         ('numpy.trace', (lambda: np.trace(x)) if len(shape) == 2 else None, lambda sl: np.trace(sl)),
+                         ('copy.copy', lambda: copy.copy(x), lambda sl: sl), ('copy.deepcopy', lambda: copy.deepcopy(x), lambda sl: sl),
+                         ('abs', lambda: abs(x) if vk == 'real' and D == 1 else None, lambda sl: np.abs(sl))):
+            if f is None:
+                continue
+            try:
+                y = f()
+            except Exception as e:
+                ctx.skip('unsupported:protocol:' + nm); continue
+            if y is None:
+                continue
+            if not isinstance(y, UTPM):
+                ctx.skip('protocol:%s returns %s' % (nm, type(y).__name__)); continue
+            ok = True
+            for d in range(D):
+                for pp in range(P):
+                    r = np.asarray(g(data[d, pp]))
+                    ok = ok and y.data[d, pp].shape == r.shape and np.allclose(y.data[d, pp], r, rtol=1e-13, atol=1e-13 * (1 + np.max(np.abs(data))))
+            if not ok:
+                ctx.violation('protocol:%s:value' % nm, {'shape': shape, 'D': D, 'P': P}); return
+            if nm == 'copy.deepcopy' and y.data.size and np.shares_memory(y.data, x.data):
+                ctx.violation('protocol:%s:shares-memory' % nm, {'shape': shape}); return
+            ctx.ok('protocol', (nm, shape, D, P, vk))
+        # builtin max / min of a vector pick the element NumPy's argmax / argmin picks (first one among equals), for P == 1
+        if len(shape) == 1 and P == 1 and vk == 'real' and shape[0] > 1:
+            try:
+                mx, mn = max(x), min(x)
+            except Exception:
+                ctx.skip('unsupported:protocol:builtin-max'); continue
+            if not (_eq(mx.data, data[:, :, int(np.argmax(plain))]) and _eq(mn.data, data[:, :, int(np.argmin(plain))])):
+                ctx.violation('protocol:builtin-max-min', {'shape': shape, 'D': D}); return
+            ctx.ok('protocol', ('maxmin', shape, D))
 
 
 def _index(ctx, p, rng):
@@ -195,7 +263,9 @@ def _index(ctx, p, rng):
                 # right-hand side is a view of the container's own zeroth coefficient (NumPy assignment is overlap-safe)
                 if len(tshape) == 0 or vk == 'complex':
                     continue
-                view = x.data[0, 0][idx]
+                # ... or of one of its own higher coefficients (x[...] = x.data[1, 0]: "restart from the first derivative")
+                dsrc = int(rng.integers(D)) if rng.random() < 0.5 else 0
+                view = x.data[dsrc, int(rng.integers(P))][idx]
                 if view.shape[0] > 1 and rng.random() < 0.5:
                     view = view[::-1]                     # overlapping, permuted
                 w = view.copy(); rhs = view
@@ -209,6 +279,15 @@ def _index(ctx, p, rng):
                 if not _eq(x.data, model):
                     ctx.violation('setitem:alias:value:%s' % icls, {'index': _fmt(idx), 'shape': shape, 'D': D, 'P': P}); continue
                 ctx.ok('setitem:alias', ('set', rk, shape, _fmt(idx), D, P, vk))
+                # a constant that does not fit the target is rejected (as by NumPy) and leaves the container as it was
+                before = x.data.copy()
+                try:
+                    x[idx] = np.ones(tuple(tshape) + (tshape[-1] + 3,))
+                    rejected = False
+                except Exception:
+                    rejected = True
+                if rejected and not _eq(x.data, before):
+                    ctx.violation('setitem:rejected-constant-changed-the-container:%s' % icls, {'index': _fmt(idx), 'shape': shape, 'D': D, 'P': P}); continue
                 continue
             if rk == 'utpm':
                 w = _vals(rng, (D, P) + tshape, vk); rhs = UTPM(w.copy())
@@ -415,13 +494,11 @@ def _reductions(ctx, p, rng):
         data = _vals(rng, (D, P) + shape, fin)
         x = UTPM(data.copy())
         for axis in range(-len(shape), len(shape)):
-            for n in (None, shape[axis], shape[axis] + 2):
+            for n in (None, shape[axis], shape[axis] + 2, 1, max(1, shape[axis] - 1), 2 * shape[axis]):
                 for nm, af, nf in (('fft', algopy.fft.fft, np.fft.fft), ('ifft', algopy.fft.ifft, np.fft.ifft)):
                     try:
                         y = af(x, n=n, axis=axis)
                     except Exception as e:
-                        if n is not None and n != shape[axis]:
-                            ctx.skip('unsupported:%s:n!=len' % nm); continue
                         ctx.violation('%s:raises' % nm, {'shape': shape, 'axis': axis, 'n': n, 'error': repr(e)[:160]}); continue
                     bad = None
                     for d in range(D):
